@@ -130,7 +130,6 @@ Section Main.
   Variable cv : chain -> list N -> block -> cvrec.
   Variable tx_valid : chain -> list N -> tx -> bool.
   Variable gt_ok : chain -> tx -> bool.
-  Variable gt_screen : chain -> tx -> bool.
   Variable work_needed : N -> N -> N -> N -> N.
   Variable supply_ok : chain -> list N -> block -> bool.
   Variable hchain : list N -> N.
@@ -404,7 +403,7 @@ Section Main.
     rewrite Hvalid, Edup. reflexivity.
   Qed.
 
-  Notation bundleM := (bundle chain view cv tx_valid gt_screen work_needed hchain mroot).
+  Notation bundleM := (bundle chain view cv tx_valid gt_ok work_needed hchain mroot).
   Notation can_bundleM := (can_bundle chain view work_needed).
   Notation intakeM := (add_transaction_if_validates chain tx_valid).
 
@@ -608,13 +607,13 @@ Section Main.
 
   (* ---------------------------------------------------------------- bundle_block *)
   Lemma screen_inv (n : nodeM) m gt gt' m0 :
-    screen_ticket chain view gt_screen n m gt = (gt', m0) ->
+    screen_ticket chain view gt_ok n m gt = (gt', m0) ->
     m_txs m0 = m_txs m /\ m_work m0 = m_work m /\ m_umap m0 = m_umap m
-    /\ (forall g, gt' = Some g -> gt = Some g /\ gt_screen (n_chain _ n) g = true /\ m0 = m)
-    /\ (gt' = None -> gt = None /\ m0 = m \/ exists g, gt = Some g /\ gt_screen (n_chain _ n) g = false /\ m0 = drop_ticket chain view n m g).
+    /\ (forall g, gt' = Some g -> gt = Some g /\ gt_ok (n_chain _ n) g = true /\ m0 = m)
+    /\ (gt' = None -> gt = None /\ m0 = m \/ exists g, gt = Some g /\ gt_ok (n_chain _ n) g = false /\ m0 = drop_ticket chain view n m g).
   Proof.
     unfold screen_ticket. destruct gt as [g|].
-    - destruct (gt_screen _ g) eqn:E; intros H; injection H as <- <-; cbn.
+    - destruct (gt_ok _ g) eqn:E; intros H; injection H as <- <-; cbn.
       + split; [reflexivity|]. split; [reflexivity|]. split; [reflexivity|]. split.
         * intros x Hx. injection Hx as <-. auto.
         * intros Hx. discriminate Hx.
@@ -631,7 +630,7 @@ Section Main.
     v_tip (view (n_chain _ n)) = Some p ->
     bundleM dbg n creator m ts gt stake order = Ok (Bundled b, m') ->
     exists gt' m0 w s m1,
-      screen_ticket chain view gt_screen n m gt = (gt', m0)
+      screen_ticket chain view gt_ok n m gt = (gt', m0)
       /\ can_bundleM n m0 ts (is_some gt') = Some w /\ stake = Some s /\ intakeM dbg n m0 s = Ok m1
       /\ createF dbg n creator ts gt' (drain_in order (m_txs m1)) = Ok b
       /\ m_gts m' = m_gts m0 /\ m_txs m' = [].
@@ -647,11 +646,11 @@ Section Main.
     destruct (intake_txs dbg n m0 s m1 Ei) as [_ ->]. reflexivity.
   Qed.
 
-  Theorem bundle_produced_validates : forall dbg (n : nodeM) creator m ts gt stake order b m' p,
+  Theorem bundle_produced_validates_gen : forall dbg (n : nodeM) creator m ts gt stake order b m' p,
     v_tip (view (n_chain _ n)) = Some p ->
     bundleM dbg n creator m ts gt stake order = Ok (Bundled b, m') ->
     forall gt' m0 s m1,
-    screen_ticket chain view gt_screen n m gt = (gt', m0) ->
+    screen_ticket chain view gt_ok n m gt = (gt', m0) ->
     stake = Some s -> intakeM dbg n m0 s = Ok m1 ->
     let drained := drain_in order (m_txs m1) in
     let c0 := cv (n_chain _ n) (n_ledger _ n) (pre_block (Some p) (par_hash p) creator ts gt' drained) in
@@ -662,9 +661,6 @@ Section Main.
     cv_types_ok cC = true ->
     (c_fee_tx cC <> None -> gt' <> None) ->
     (forall g, gt = Some g -> is_type TGoldenTicket g = true) ->
-    (* what passes bundle_block's screen passes Block::validate's ticket check (fails for a ticket
-       that names the all-zero key: finding zero-key-ticket-passes-screen) *)
-    (forall g, gt = Some g -> gt_screen (n_chain _ n) g = true -> gt_ok (n_chain _ n) g = true) ->
     pool_types_ok (m_txs m1) = true ->
     count_type TIssuance (m_txs m1) = 0 ->
     (v_stake_req (view (n_chain _ n)) = 0 \/ count_type TBlockStake kept = 1) ->
@@ -678,7 +674,7 @@ Section Main.
     acceptsM dbg n b = Ok true.
   Proof.
     intros dbg n creator m ts gt stake order b m' p Htip Hb gt' m0 s m1 Hsc Hs Hi drained c0 kept cC cV
-           Hag Hty Hfeegt Hgt Hscr Hpool Hiss Hstake Hvalid Hcache Hne Hkw Hsupply.
+           Hag Hty Hfeegt Hgt Hpool Hiss Hstake Hvalid Hcache Hne Hkw Hsupply.
     destruct (bundle_inv dbg n creator m ts gt stake order b m' p Htip Hb)
       as (gt2 & m02 & w & s' & m1' & Hsc' & Hgate & Hs' & Hi' & Hcreate & _ & _).
     rewrite Hsc in Hsc'. injection Hsc' as <- <-.
@@ -690,7 +686,7 @@ Section Main.
     assert (Hsup : nsum (map t_work (m_txs m0)) <= nsum (map t_work (m_txs m1))).
     { destruct (intake_txs dbg n m0 s m1 Hi) as [[->|[-> _]] _]; [lia|apply nsum_work_cons]. }
     assert (Hgt' : forall g, gt' = Some g -> is_type TGoldenTicket g = true /\ gt_ok (n_chain _ n) g = true).
-    { intros g Hg. destruct (Hsome g Hg) as (Hgg & Hok & _). split; [now apply Hgt|now apply Hscr]. }
+    { intros g Hg. destruct (Hsome g Hg) as (Hgg & Hok & _). split; [now apply Hgt|exact Hok]. }
     assert (Hgt1 : forall g, gt' = Some g -> is_type TGoldenTicket g = true) by (intros g Hg; apply (Hgt' g Hg)).
     assert (Hpool' : pool_types_ok drained = true).
     { unfold pool_types_ok in *. rewrite (forallb_perm _ _ _ Hperm). exact Hpool. }
@@ -781,7 +777,7 @@ Section Main.
   (* ---------------------------------------------------------------- fix e0300b2: the producer recovers *)
   Theorem bad_ticket_dropped : forall dbg (n : nodeM) creator m ts g stake order,
     (match v_tip (view (n_chain _ n)) with Some p => par_ts p | None => 0 end) < ts ->
-    gt_screen (n_chain _ n) g = false ->
+    gt_ok (n_chain _ n) g = false ->
     bundleM dbg n creator m ts (Some g) stake order
     = bundleM dbg n creator (drop_ticket chain view n m g) ts None stake order.
   Proof.
@@ -813,7 +809,7 @@ Section Main.
 
   Lemma bundle_keeps dbg (n : nodeM) creator m ts gt stake order out m' gt' m0 :
     (match v_tip (view (n_chain _ n)) with Some p => par_ts p | None => 0 end) < ts ->
-    screen_ticket chain view gt_screen n m gt = (gt', m0) ->
+    screen_ticket chain view gt_ok n m gt = (gt', m0) ->
     bundleM dbg n creator m ts gt stake order = Ok (out, m') ->
     m_gts m' = m_gts m0.
   Proof.
@@ -836,14 +832,14 @@ Section Main.
   Theorem producer_recovers : forall dbg (n : nodeM) creator m ts g stake order out m',
     (match v_tip (view (n_chain _ n)) with Some p => par_ts p | None => 0 end) < ts ->
     pick_gt m (tip_hash_of chain view n) = Some g ->
-    gt_screen (n_chain _ n) g = false ->
+    gt_ok (n_chain _ n) g = false ->
     bundleM dbg n creator m ts (pick_gt m (tip_hash_of chain view n)) stake order = Ok (out, m') ->
     pick_gt m' (tip_hash_of chain view n) = None
     /\ bundleM dbg n creator (drop_ticket chain view n m g) ts None stake order = Ok (out, m').
   Proof.
     intros dbg n creator m ts g stake order out m' Hts Hpick Hbad H. rewrite Hpick in H.
     split.
-    - assert (Hsc : screen_ticket chain view gt_screen n m (Some g) = (None, drop_ticket chain view n m g)).
+    - assert (Hsc : screen_ticket chain view gt_ok n m (Some g) = (None, drop_ticket chain view n m g)).
       { unfold screen_ticket. now rewrite Hbad. }
       unfold pick_gt. rewrite (bundle_keeps dbg n creator m ts (Some g) stake order out m' None _ Hts Hsc H).
       apply drop_ticket_unpicks.
@@ -854,11 +850,11 @@ Section Main.
   Theorem bundled_ticket_solves : forall dbg (n : nodeM) creator m ts gt stake order b m' p g,
     v_tip (view (n_chain _ n)) = Some p ->
     bundleM dbg n creator m ts gt stake order = Ok (Bundled b, m') ->
-    fst (screen_ticket chain view gt_screen n m gt) = Some g ->
-    gt = Some g /\ gt_screen (n_chain _ n) g = true.
+    fst (screen_ticket chain view gt_ok n m gt) = Some g ->
+    gt = Some g /\ gt_ok (n_chain _ n) g = true.
   Proof.
     intros dbg n creator m ts gt stake order b m' p g Htip Hb Hs.
-    destruct (screen_ticket chain view gt_screen n m gt) as [gt' m0] eqn:E. cbn in Hs. subst gt'.
+    destruct (screen_ticket chain view gt_ok n m gt) as [gt' m0] eqn:E. cbn in Hs. subst gt'.
     destruct (screen_inv n m gt (Some g) m0 E) as (_ & _ & _ & H & _).
     destruct (H g eq_refl) as (H1 & H2 & _). auto.
   Qed.
@@ -929,12 +925,10 @@ Section Main.
   Qed.
 
   (* ---------------------------------------------------------------- outside the listed classes *)
-  Notation KnownM := (Known_C07 chain view cv tx_valid gt_ok work_needed).
-
   Theorem produced_validates_outside_known : forall dbg (n : nodeM) creator ts gt drained b p,
     v_tip (view (n_chain _ n)) = Some p ->
     createF dbg n creator ts gt drained = Ok b ->
-    KnownM dbg n creator ts gt drained b = false ->
+    Known_C07 drained = false ->
     let c0 := cv (n_chain _ n) (n_ledger _ n) (pre_block (Some p) (par_hash p) creator ts gt drained) in
     let kept := kept_pool c0 drained in
     let cC := cv (n_chain _ n) (n_ledger _ n) (pre_block (Some p) (par_hash p) creator ts gt kept) in
@@ -942,23 +936,19 @@ Section Main.
     agreesb dbg hchain cC cV = true ->
     cv_types_ok cC = true ->
     (c_fee_tx cC <> None -> gt <> None) ->
-    (forall g, gt = Some g -> is_type TGoldenTicket g = true) ->
+    (forall g, gt = Some g -> is_type TGoldenTicket g = true /\ gt_ok (n_chain _ n) g = true) ->
     pool_types_ok drained = true ->
     kept <> [] ->
     (v_stake_req (view (n_chain _ n)) = 0 \/ count_type TBlockStake kept = 1) ->
+    forallb (tx_valid (n_chain _ n) (n_ledger _ n)) (b_txs b) = true ->
+    work_needed (par_burnfee p) ts (par_ts p) (v_heartbeat (view (n_chain _ n)))
+      <= nsum (map t_work (opt_list gt ++ kept)) ->
     validateM dbg n true b = Ok true.
   Proof.
-    intros dbg n creator ts gt drained b p Htip Hcreate Hk c0 kept cC cV Hag Hty Hfeegt Hgt1 Hpool Hne Hstake.
-    unfold Known_C07 in Hk. cbv zeta in Hk.
-    rewrite (create_pre_eq n creator ts gt drained p Htip Hgt1) in Hk. cbn [fst snd] in Hk.
-    fold c0 kept in Hk. rewrite Htip in Hk.
-    change (b_txs (pre_block (Some p) (par_hash p) creator ts gt kept)) with (opt_list gt ++ kept) in Hk.
-    rewrite !orb_false_iff in Hk. destruct Hk as [[[K1 K2] K3] K4].
-    apply negb_false_iff in K2.
+    intros dbg n creator ts gt drained b p Htip Hcreate Hk c0 kept cC cV Hag Hty Hfeegt Hgt Hpool Hne Hstake Hvalid Hwork.
+    unfold Known_C07 in Hk. apply N.ltb_ge in Hk.
     apply produced_validates_F with (creator := creator) (ts := ts) (gt := gt) (drained := drained) (p := p); auto.
-    - intros g Hg. split; [now apply Hgt1|]. rewrite Hg in K4. now apply negb_false_iff in K4.
-    - apply N.ltb_ge in K1. lia.
-    - fold c0 kept. apply N.ltb_ge in K3. exact K3.
+    lia.
   Qed.
 
   (* ---------------------------------------------------------------- the window (fix bb88717) *)
@@ -1025,46 +1015,125 @@ Section Main.
       rewrite (young_pool_kept c0 drained Hdue Hyd). split; [reflexivity|].
       rewrite (nsum_perm _ _ (Permutation_map t_work Hperm)). lia.
     Qed.
+
+    (* the invariant over the life of the pool: the intake (on the current tip), the re-validation
+       when the tip moves (fix df3ca14) and every shrinking of the pool (bundle, hand-back) keep it
+       young with respect to the current next block *)
+    Lemma revalidate_young spendable confirmed txs :
+      Forall (fun t => window_exempt t = false) txs ->
+      young_pool key_block gp next (revalidate key_block gp next spendable confirmed txs) = true.
+    Proof.
+      intros Hex. unfold young_pool, revalidate. rewrite forallb_forall. intros t Ht.
+      apply filter_In in Ht. destruct Ht as [Ht _]. apply filter_In in Ht. destruct Ht as [Hin Ht].
+      rewrite Forall_forall in Hex. rewrite (Hex t Hin) in Ht. cbn [orb] in Ht.
+      apply andb_true_iff in Ht. apply Ht.
+    Qed.
+
+    Lemma young_filter f l : young_pool key_block gp next l = true -> young_pool key_block gp next (filter f l) = true.
+    Proof.
+      unfold young_pool. rewrite !forallb_forall. intros H t Ht. apply filter_In in Ht. apply H. apply Ht.
+    Qed.
+
+    (* bundle_block's block is accepted: the window invariant of the pool replaces the former
+       hypotheses about what create leaves out *)
+    Theorem bundle_produced_validates : forall dbg (n : nodeM) creator m ts gt stake order b m' p,
+      v_tip (view (n_chain _ n)) = Some p ->
+      bundleM dbg n creator m ts gt stake order = Ok (Bundled b, m') ->
+      forall gt' m0 s m1,
+      screen_ticket chain view gt_ok n m gt = (gt', m0) ->
+      stake = Some s -> intakeM dbg n m0 s = Ok m1 ->
+      let drained := drain_in order (m_txs m1) in
+      let cC := cv (n_chain _ n) (n_ledger _ n) (pre_block (Some p) (par_hash p) creator ts gt' drained) in
+      let cV := cv (n_chain _ n) (n_ledger _ n) b in
+      (forall x, tx_valid (n_chain _ n) (n_ledger _ n) x = true -> young_tx key_block gp next x = true) ->
+      young_pool key_block gp next (m_txs m) = true ->
+      rebroadcasts_due key_block gp next cC = true ->
+      agreesb dbg hchain cC cV = true ->
+      cv_types_ok cC = true ->
+      (c_fee_tx cC <> None -> gt' <> None) ->
+      (forall g, gt = Some g -> is_type TGoldenTicket g = true) ->
+      pool_types_ok (m_txs m1) = true ->
+      count_type TIssuance (m_txs m1) = 0 ->
+      (v_stake_req (view (n_chain _ n)) = 0 \/ count_type TBlockStake (m_txs m1) = 1) ->
+      forallb (tx_valid (n_chain _ n) (n_ledger _ n)) (b_txs b) = true ->
+      m_work m <= nsum (map t_work (m_txs m)) ->
+      supply_ok (n_chain _ n) (n_ledger _ n) b = true ->
+      acceptsM dbg n b = Ok true.
+    Proof.
+      intros dbg n creator m ts gt stake order b m' p Htip Hb gt' m0 s m1 Hsc Hs Hi drained cC cV
+             Hvy Hy Hdue Hag Hty Hfeegt Hgt Hpool Hiss Hstake Hvalid Hcache Hsupply.
+      destruct (screen_inv n m gt gt' m0 Hsc) as (Htx0 & _ & _ & _ & _).
+      assert (Hy0 : young_pool key_block gp next (m_txs m0) = true) by now rewrite Htx0.
+      destruct (young_pool_nothing_left_out dbg n m0 s m1 order creator ts gt' p Htip Hvy Hy0 Hi Hdue) as [Hk Hw].
+      fold drained in Hk, Hw. fold cC in Hk, Hw.
+      assert (Hperm : Permutation drained (m_txs m1)) by apply drain_perm.
+      destruct (bundle_inv dbg n creator m ts gt stake order b m' p Htip Hb)
+        as (gt2 & m02 & w & s' & m1' & Hsc' & Hgate & _ & _ & _ & _ & _).
+      rewrite Hsc in Hsc'. injection Hsc' as <- <-.
+      destruct (gate_inv n m0 ts (is_some gt') w p Htip Hgate) as (Hnil & _).
+      eapply bundle_produced_validates_gen with (gt' := gt') (m0 := m0) (s := s) (m1 := m1); eauto;
+        fold drained; fold cC; rewrite ?Hk; auto.
+      - destruct Hstake as [H|H]; [left; exact H|right].
+        unfold count_type in *. rewrite (countb_perm _ _ _ Hperm). exact H.
+      - intros E. assert (Hm1 : m_txs m1 = []) by (apply Permutation_nil; rewrite <- E; exact Hperm).
+        destruct (intake_txs dbg n m0 s m1 Hi) as [[Hx|[Hx _]] _]; rewrite Hx in Hm1; [|discriminate].
+        rewrite Hm1 in Hnil. discriminate.
+    Qed.
   End Window.
 
-  (* ---------------------------------------------------------------- a ticket that passes the screen
-     of bundle_block but not Block::validate (it names the all-zero key): the block is rejected and
-     the ticket stays where it is *)
-  Theorem screened_bad_ticket_stays : forall dbg (n : nodeM) creator m ts g stake order out m' p,
-    v_tip (view (n_chain _ n)) = Some p ->
-    par_ghost p = false ->
-    par_ts p < ts ->
-    pick_gt m (par_hash p) = Some g ->
-    is_type TGoldenTicket g = true ->
-    gt_screen (n_chain _ n) g = true ->
-    gt_ok (n_chain _ n) g = false ->
-    pool_types_ok (m_txs m) = true ->
-    (forall b0, cv_types_ok (cv (n_chain _ n) (n_ledger _ n) b0) = true) ->
-    bundleM dbg n creator m ts (pick_gt m (par_hash p)) stake order = Ok (out, m') ->
-    pick_gt m' (par_hash p) = Some g
-    /\ forall b, out = Bundled b -> acceptsM dbg n b <> Ok true.
-  Proof.
-    intros dbg n creator m ts g stake order out m' p Htip Hghost Hts Hpick Hg Hscr Hbad Hp Hcvty H.
-    rewrite Hpick in H.
-    assert (Hsc : screen_ticket chain view gt_screen n m (Some g) = (Some g, m)).
-    { unfold screen_ticket. now rewrite Hscr. }
-    assert (Hts' : (match v_tip (view (n_chain _ n)) with Some p0 => par_ts p0 | None => 0 end) < ts) by now rewrite Htip.
-    split.
-    - unfold pick_gt. rewrite (bundle_keeps dbg n creator m ts (Some g) stake order out m' (Some g) m Hts' Hsc H).
-      exact Hpick.
-    - intros b ->.
-      destruct (bundle_inv dbg n creator m ts (Some g) stake order b m' p Htip H)
-        as (gt' & m0 & w & s & m1 & Hsc' & _ & _ & Hi & Hcreate & _ & _).
-      rewrite Hsc in Hsc'. injection Hsc' as <- <-.
-      assert (Hpool1 : pool_types_ok (drain_in order (m_txs m1)) = true).
-      { unfold pool_types_ok. rewrite (forallb_perm _ _ _ (drain_perm order (m_txs m1))).
-        destruct (intake_txs dbg n m s m1 Hi) as [[->|[-> Hs]] _]; [exact Hp|].
-        cbn. rewrite Hs. exact Hp. }
-      unfold node_accepts. destruct (negb _); [discriminate|].
-      assert (Hv : validateM dbg n true b <> Ok true) by (eapply invalid_gt_rejected; eauto).
-      destruct (validate _ _ _ _ _ _ _ dbg n true b) as [[|]| |s1]; cbn [bind]; try discriminate.
-      congruence.
-  Qed.
+  (* ---------------------------------------------------------------- the life of the pool
+     [next_of] = id of the next block of a chain.  Transaction::validate refuses inputs outside
+     the window of the next block (hypothesis [Hvy]: bb88717).  Events: a transaction arrives
+     (intake on the current node state), the tip moves (any new node state; re-validation of
+     fix df3ca14), the pool shrinks (bundle drained it, create handed part of it back, ...). *)
+  Section PoolLife.
+    Variable key_block : N -> N.
+    Variable gp : N.
+    Variable next_of : chain -> N.
+    Hypothesis Hvy : forall (n : nodeM) x,
+      tx_valid (n_chain _ n) (n_ledger _ n) x = true ->
+      young_tx key_block gp (next_of (n_chain _ n)) x = true.
+
+    Notation pev := (pev chain).
+    Notation pstep := (pstep chain tx_valid key_block gp next_of).
+    Notation prun := (prun chain tx_valid key_block gp next_of).
+    Notation arrives_exempt := (arrives_exempt chain).
+    Notation PoolInv := (PoolInv chain key_block gp next_of).
+
+    Lemma pstep_inv dbg st e st1 :
+      arrives_exempt e = false -> PoolInv st -> pstep dbg st e = Ok st1 -> PoolInv st1.
+    Proof.
+      intros Hex [Hy Hne] H. destruct e as [t|n' sp cf|f]; cbn [pstep] in H.
+      - destruct (add_transaction_if_validates _ _ dbg (fst st) (snd st) t) as [m1| |s1] eqn:Ei; cbn [bind] in H; try discriminate.
+        injection H as <-. cbn [fst snd]. split.
+        + eapply intake_keeps_young; eauto.
+        + unfold add_transaction_if_validates in Ei.
+          destruct (producer_only t); [injection Ei as <-; exact Hne|].
+          destruct (is_type TBlockStake t && negb (t_own t)); [injection Ei as <-; exact Hne|].
+          destruct (tx_valid _ _ t); [|injection Ei as <-; exact Hne].
+          destruct (add_transaction_txs dbg (snd st) t m1 Ei) as [[E|[E _]] _]; cbn [snd]; rewrite E; [exact Hne|].
+          constructor; [exact Hex|exact Hne].
+      - injection H as <-. cbn [fst snd with_txs m_txs]. split.
+        + apply revalidate_young. exact Hne.
+        + unfold revalidate. rewrite Forall_forall in *. intros t Ht.
+          apply filter_In in Ht. destruct Ht as [Ht _]. apply filter_In in Ht. apply Hne. apply Ht.
+      - injection H as <-. cbn [fst snd with_txs m_txs]. split.
+        + apply young_filter. exact Hy.
+        + rewrite Forall_forall in *. intros t Ht. apply filter_In in Ht. apply Hne. apply Ht.
+    Qed.
+
+    Theorem pool_stays_young : forall dbg evs st st',
+      forallb (fun e => negb (arrives_exempt e)) evs = true ->
+      PoolInv st -> prun dbg st evs = Ok st' -> PoolInv st'.
+    Proof.
+      intros dbg evs. induction evs as [|e r IH]; intros st st' Hex Hinv H.
+      - injection H as <-. exact Hinv.
+      - cbn [prun] in H. cbn [forallb] in Hex. apply andb_true_iff in Hex. destruct Hex as [He Hr].
+        destruct (pstep dbg st e) as [st1| |s1] eqn:Es; cbn [bind] in H; try discriminate.
+        apply (IH st1 st' Hr); [|exact H].
+        eapply pstep_inv; eauto. now apply negb_true_iff.
+    Qed.
+  End PoolLife.
 
   (* add_block_failure removes under the hash of the FAILED block: the ticket for the tip stays *)
   Lemma pick_gt_del m_g tip h : h <> tip ->
@@ -1176,7 +1245,7 @@ Section Main.
   Theorem create_failure_restores : forall dbg (n : nodeM) creator m ts gt stake order m',
     bundleM dbg n creator m ts gt stake order = Ok (CreateFailed, m') ->
     exists gt' m0 s m1,
-      screen_ticket chain view gt_screen n m gt = (gt', m0) /\ stake = Some s /\ intakeM dbg n m0 s = Ok m1
+      screen_ticket chain view gt_ok n m gt = (gt', m0) /\ stake = Some s /\ intakeM dbg n m0 s = Ok m1
       /\ m_txs m' = handed_back chain view cv n creator ts gt' (drain_in order (m_txs m1))
       /\ m_work m' = nsum (map t_work (m_txs m'))
       /\ m_umap m' = flat_map t_inputs (m_txs m')
